@@ -66,6 +66,7 @@ def process_top(job):
         custom = getattr(top, 'extra', {}).get('custom')
         if custom is not None:
             return custom(top, out, tier, seed)
+        inner_procs = getattr(top, 'extra', {}).get('procs') or inner_procs  # families of tiny lemmas: procs=1 (no fork per lemma)
         res = vcgen.verify(C.REG, top, tier=tier)
         out['gen_s'] = time.time() - t0
         out['paths'] = res.paths
